@@ -616,6 +616,9 @@ fn client_handler<State>(
 
                         handler.cors.set_headers(&mut response.headers);
 
+                        // Set HTTP version
+                        response.version = request.version.clone();
+
                         response
                     }
                     None => error_handler(StatusCode::NotFound),
